@@ -702,6 +702,99 @@ def contracts(reg):
 
 
 # =====================================================================================
+# Known answers (guard the transcription of the spec functions): the z3 spec, fully unfolded over a concrete
+# tree given by ground facts, must equal the text the statement prescribes for that tree (computed by the
+# independent Python transcription in replay/c02_trees.py).
+# =====================================================================================
+def ground_tree(root, find_tags=()):
+    """(root term, ground facts, [(node, term)]) describing a concrete replay.c02_trees.Node tree in the etree model."""
+    facts, nodes = [], []
+
+    def rec(n):
+        e = z3.Const(f"ka{len(nodes) + 1}", ELEM)
+        nodes.append((n, e))
+        facts.extend([TAG(e) == lit(n.tag), TEXT_NONE(e) == z3.BoolVal(n.text is None), TEXT(e) == lit(n.text or ""),
+                      TAIL_NONE(e) == z3.BoolVal(n.tail is None), TAIL(e) == lit(n.tail or ""), NCH(e) == len(n.children)])
+        for k, v in n.attrib.items():
+            facts.extend([ATTR_HAS(e, lit(k)), ATTR(e, lit(k)) == lit(v)])
+        kids = [rec(c) for c in n.children]
+        for i, c in enumerate(kids):
+            facts.append(CH(e, i) == c)
+        for t in find_tags:
+            idx = next((i for i, c in enumerate(n.children) if c.tag == t), None)
+            facts.append(FIND_NONE(e, lit(t)) == z3.BoolVal(idx is None))
+            if idx is not None:
+                facts.append(FIND_IDX(e, lit(t)) == idx)
+        return e
+    r = rec(root)
+    return r, facts, nodes
+
+
+def ground_defs(nodes, per_node, per_prefix):
+    """Definition instances at every node and at every child prefix 0..n of a concrete tree."""
+    out = []
+    for n, e in nodes:
+        for f in per_node:
+            out.extend(f(e))
+        for k in range(len(n.children) + 1):
+            for f in per_prefix:
+                out.extend(f(e, z3.IntVal(k)))
+    return out
+
+
+def lemmas():
+    from replay import c02_trees as TR
+    N, W, MC = TR.N, TR.W, TR.MC
+    out = []
+    # ---- ODF ---------------------------------------------------------------------------------
+    cfg = (lit(TR.T_S), lit(TR.T_TAB), lit(TR.T_LB), lit(TR.T_C))
+    SK = z3.Const("ka.skip", STRSET)
+    odf = {
+        "spaces-tab-break": N(TR.T_P, N(TR.T_S, tail="b", **{TR.T_C: "3"}), N(TR.T_TAB, tail="c"), N(TR.T_LB), N(TR.T_S), text="a"),
+        "skipped-note-keeps-tail": N(TR.T_P, N(TR.T_NOTE, N(TR.T_P, text="NOTE"), tail="after"), text="before"),
+        "nested-span": N(TR.T_P, N(TR.T_SPAN, N(TR.T_SPAN, N(TR.T_TAB), text="in", tail="t1"), text="s", tail="t2")),
+        "bad-count-is-one-zero-is-nothing": N(TR.T_P, N(TR.T_S, tail="x", **{TR.T_C: "zz"}), N(TR.T_S, tail="y", **{TR.T_C: "0"})),
+    }
+    for name, tree in odf.items():
+        root, facts, nodes = ground_tree(tree)
+        tags = {n.tag for n in tree.walk()}
+        facts += [MEMBER(SK, lit(t)) == z3.BoolVal(t == TR.T_NOTE) for t in tags]
+        facts += [T.INT_OK(lit("3")), T.INT_VAL(lit("3")) == 3, z3.Not(T.INT_OK(lit("zz"))), T.INT_OK(lit("0")), T.INT_VAL(lit("0")) == 0,
+                  T.REP(lit(" "), z3.IntVal(3)) == lit("   "), T.REP(lit(" "), z3.IntVal(1)) == lit(" ")] + T.GLOBAL_AXIOMS
+        facts += [z3.Not(ATTR_HAS(e, lit(TR.T_C))) for n, e in nodes if TR.T_C not in n.attrib]
+        facts += ground_defs(nodes, [lambda e: _odf_text_def(e, *cfg, SK), lambda e: _odf_item_def(e, *cfg, SK)],
+                             [lambda e, k: _odf_kids_def(e, k, *cfg, SK)])
+        goal = ODF_TEXT(root, *cfg, SK) == lit(TR.odf_text(tree, skip=frozenset({TR.T_NOTE})))
+        out.append((f"C02/spec::odf_text/lemma#known-answer.{name}", facts, goal))
+    # ---- DOCX ----------------------------------------------------------------------------------
+    wt, wr, wp = TR.wt, TR.wr, TR.wp
+    docx = {
+        "tab-and-break-are-whitespace": wp(wr(wt("A"), N(W + "tab"), wt("B"), N(W + "br"), wt("C"))),
+        "deletion-and-move-source-excluded": wp(wr(wt("K")), N(W + "del", wr(N(W + "delText", text="GONE"))), N(W + "moveFrom", wr(wt("MOVED"))),
+                                                N(W + "ins", wr(wt("INS")))),
+        "content-control-and-hyperlink-transparent": wp(N(W + "sdt", N(W + "sdtContent", wr(wt("S")))), N(W + "hyperlink", wr(wt("L")))),
+        "choice-only-and-nested-paragraphs": wp(wr(wt("H")), wr(N(MC + "AlternateContent",
+                                                 N(MC + "Choice", N(W + "txbxContent", TR.wpara("B1"), TR.wpara("B2"))),
+                                                 N(MC + "Fallback", N(W + "txbxContent", TR.wpara("B1"), TR.wpara("B2"))))), wr(wt("T"))),
+        "vml-text-box-is-visible": wp(wr(N(W + "pict", N(W + "txbxContent", TR.wpara("BOX"))))),
+    }
+    inc = z3.BoolVal(True)
+    for name, tree in docx.items():
+        root, facts, nodes = ground_tree(tree, find_tags=(MC + "Choice", M_ + "oMath"))
+        facts += T.GLOBAL_AXIOMS
+        want = TR.docx_par(tree)
+        atoms = sorted({n.text for n in tree.walk() if n.text})
+        facts += [T.NWF(lit(a)) == lit(T.nw_lit(a)) for a in atoms] + [T.SQF(lit(a)) == lit(T.sq_lit(a)) for a in atoms]
+        # sq image in D-form: every boundary contributes its own blank (leaf texts here contain no whitespace)
+        dform = lambda s_: "".join(" " if ch.isspace() else ch for ch in s_)
+        for nm, D, h, f in (("nw", DXN, NW, T.nw_lit), ("sq", DXS, SQ, dform)):
+            defs = ground_defs(nodes, [lambda e, D=D: D._f(e, inc)], [lambda e, k, D=D: D._kids(e, k, inc), lambda e, k, D=D: D._run(e, k, inc)])
+            goal = D.all_kids(root, inc) == lit(f(want))
+            out.append((f"C02/spec::dx_{nm}/lemma#known-answer.{name}", facts + defs, goal))
+    return out
+
+
+# =====================================================================================
 # BOUNDED stand-ins (DESIGN 2.8) and document-level generator: run natively on the real code
 # (replay/C02.py under /venv/bin/python).  A counterexample is a refuted obligation with its
 # witness; an exhaustive run without counterexample is reported as `bounded-ok`, never as proved.
